@@ -475,6 +475,9 @@ func (r *runner) explore(h *History, b bounds, wi, wn int, depth0 *int) {
 		if l == nil || !ok {
 			continue
 		}
+		if (o.Kind == "range" || o.Kind == "all") && nc == 0 && len(child.Ops) <= 4 {
+			r.faultVariants(child)
+		}
 		r.trans++
 		r.hists++
 		if len(child.Ops) > r.maxDepth {
@@ -502,6 +505,76 @@ func (r *runner) explore(h *History, b bounds, wi, wn int, depth0 *int) {
 			r.sink.Sample(fmt.Sprintf("cfg=%s auto=%v ops=%s -> tables %d", child.Cfg, child.Auto, js, len(listNames(l.w))))
 		}
 		r.explore(child, b, wi, wn, depth0)
+	}
+}
+
+// faultVariants re-runs the last (compaction) step of h once for every filesystem call it makes,
+// with that call failing with EIO (reads and writes included). Whether the compaction then fails or
+// not, readers must see what they saw before, every listed table must exist and a fresh handle must agree.
+func (r *runner) faultVariants(h *History) {
+	prefix := &History{Cfg: h.Cfg, Auto: h.Auto, Ops: h.Ops[:len(h.Ops)-1]}
+	last := h.Ops[len(h.Ops)-1]
+	// number of filesystem calls of the fault-free compaction
+	l, ok := r.replay(prefix, false)
+	if l == nil || !ok {
+		rt.E = nil
+		return
+	}
+	p := l.w.Proc(0)
+	p.OpCount = 0
+	l.w.As(0, func() error { r.apply(l, last, h, false); return nil })
+	n := p.OpCount
+	rt.E = nil
+	for k := 1; k <= n; k++ {
+		l, ok := r.replay(prefix, false)
+		if l == nil || !ok {
+			rt.E = nil
+			return
+		}
+		r.sink.Count("fault_variants", 1)
+		viol := func(sig, msg string) {
+			r.sink.Violate(sig, fmt.Sprintf("history %v [cfg %s] with the compaction's filesystem call #%d of %d failing with EIO: %s", h.Ops, h.Cfg, k, n, msg), map[string]interface{}{"History": h, "FaultAt": k})
+		}
+		l.w.As(0, func() error {
+			v0, err := l.view()
+			if err != nil {
+				return nil
+			}
+			p := l.w.Proc(0)
+			p.OpCount = 0
+			p.FaultAt = k
+			cerr := guard(func() error {
+				if last.Kind == "all" {
+					return l.st.CompactAll(nil)
+				}
+				_, err := l.st.VerifCompactRange(last.I, last.J, nil)
+				return err
+			})
+			p.FaultAt = 0
+			if cerr != nil && strings.HasPrefix(cerr.Error(), "panic") {
+				viol("fault:compaction-panics", cerr.Error())
+				return nil
+			}
+			for _, nm := range listNames(l.w) {
+				if l.w.Lookup(nm) == nil {
+					viol("fault:listed-table-removed", fmt.Sprintf("tables.list names %s, which no longer exists (compaction returned %v)", nm, cerr))
+					return nil
+				}
+			}
+			if v2, err := freshView(l); err != nil {
+				viol("fault:fresh-open-fails:"+errClass(err.Error()), fmt.Sprintf("a fresh NewStack+scan fails: %v (compaction returned %v)", err, cerr))
+			} else if v2 != v0 {
+				viol("fault:view-changed", fmt.Sprintf("compaction returned %v and a freshly opened handle now sees\n%s\n--- before\n%s", cerr, v2, v0))
+			}
+			if cerr == nil {
+				// the compacting handle itself must still read the same
+				if v1, err := l.view(); err != nil || v1 != v0 {
+					viol("fault:own-view-changed", fmt.Sprintf("compaction reported success but the handle's view changed (err=%v)", err))
+				}
+			}
+			return nil
+		})
+		rt.E = nil
 	}
 }
 
